@@ -1205,7 +1205,9 @@ impl Scenario for Truncate {
     }
     fn rule(&self) -> String {
         "case = (stream, command line, source) and a set of crash points = input ends after byte k. Streams are \
-         conforming or corrupted multi-packet multi-link streams. Small streams (<= 1.5 kB quick, <= 6 kB thorough): \
+         conforming or corrupted multi-packet multi-link streams (1 in 8 each: payloads above 8 KiB, an exact batch \
+         multiple of selected packets followed by skipped ones, header-only packets, an input several times the \
+         reader's 50 KiB buffer). Small streams (<= 1.5 kB quick, <= 6 kB thorough): \
          EVERY k in 0..=len is enumerated; larger streams: every structural boundary (inside the first 8 bytes, \
          inside each RDH, at each RDH end, inside each payload, at each packet end, +-1 around them) plus seeded \
          positions. The cut is the seam answering EOF at byte k (pipe) or the file ending there (file). Modes: the \
@@ -1327,6 +1329,27 @@ impl Scenario for Truncate {
                 }
             });
             label = "small packets, header-only ones among them".to_string();
+        } else if special == 3 {
+            // an input several times the size of the reader's 50 KiB buffer, made of large packets: a cut inside a
+            // payload that lies partly or wholly beyond what is buffered (skipped by seeking when the input is a file)
+            let n = rng.range(12, 40) as usize;
+            let base = gen_arbitrary(&mut rng, n, 64, 2);
+            let sizes: Vec<usize> = (0..n).map(|_| rng.range(2000, 9500) as usize).collect();
+            input = rebuild_stream(&base, &mut |i, _r, payload| payload.resize(sizes[i], 0x3C));
+            let l = input.len() as u64;
+            for _ in 0..120 {
+                extra_cuts.push(rng.below(l + 1));
+            }
+            let w = walk(&input);
+            for p in w.pkts.iter().rev().take(3) {
+                let (ps, pe) = (p.payload.start as u64, p.payload.end as u64);
+                let mut c = ps + 1;
+                while c < pe {
+                    extra_cuts.push(c);
+                    c += 700;
+                }
+            }
+            label = "input several times the read buffer".to_string();
         }
         let len = input.len() as u64;
         let full_enum_limit = match tier {
@@ -1376,7 +1399,7 @@ impl Scenario for Truncate {
         cuts.extend(extra_cuts.iter().copied().filter(|c| *c <= len));
         cuts.sort_unstable();
         cuts.dedup();
-        let arbitrary_payloads = special <= 2;
+        let arbitrary_payloads = special <= 3;
         let mut parts: Vec<String> = if rows_mode {
             let v = if arbitrary_payloads || rng.chance(1, 2) { VIEW_MODES[0] } else { VIEW_MODES[1] };
             label = format!("{} | {label}", v.join(" "));
@@ -1414,7 +1437,13 @@ impl Scenario for Truncate {
             parts.extend(f.args());
             label.push_str(" filter");
         }
-        let im = if arbitrary_payloads && rng.chance(2, 3) { InputMode::Pipe } else { pick_input_mode(&mut rng) };
+        let im = if special == 3 && rng.chance(2, 3) {
+            InputMode::File
+        } else if arbitrary_payloads && rng.chance(2, 3) {
+            InputMode::Pipe
+        } else {
+            pick_input_mode(&mut rng)
+        };
         label.push_str(if im == InputMode::File { " file" } else { " pipe" });
         let mut full = specgen::spec(im, &parts, input);
         if rng.chance(1, 2) {
